@@ -526,5 +526,3 @@ func (e EvmEngine) genAttackProgram(r *Run) Program {
 	}
 	return p
 }
-
-
